@@ -3,6 +3,7 @@
 -/
 import FalconProofs.C02.Pair
 import FalconProofs.C02.Store
+import FalconProofs.C02.HiLo
 
 namespace Falcon.Isa.Mips
 open Falcon Falcon.Sem Falcon.Const
@@ -26,12 +27,22 @@ theorem instrOK_r3 (op : R3) (rd rs rt : Reg) : InstrOK (.r3 op rd rs rt) := by
     simp only [liftI, Option.some.injEq] at hl; subst hl; subst h3
     obtain ⟨σ', hr, hsim⟩ := sltu_correct hσ rd rs rt a 4091
     exact ⟨rfl, σ', hr, hsim, rfl⟩
+  by_cases hn : op = .movn
+  · subst hn
+    simp only [liftI, Option.some.injEq] at hl; subst hl; subst h3
+    obtain ⟨σ', hr, hsim⟩ := movn_correct hσ rd rs rt a 4091
+    exact ⟨rfl, σ', hr, hsim, rfl⟩
+  by_cases hz : op = .movz
+  · subst hz
+    simp only [liftI, Option.some.injEq] at hl; subst hl; subst h3
+    obtain ⟨σ', hr, hsim⟩ := movz_correct hσ rd rs rt a 4091
+    exact ⟨rfl, σ', hr, hsim, rfl⟩
   have hm : op ≠ .mul := by
     intro h; subst h; simp [liftI, r3Expr] at hl
   have hu' : u = false := by
     rw [← h3]; cases op <;> first | rfl | exact absurd rfl hm
   subst hu'
-  obtain ⟨he, σ', hr, hsim⟩ := r3_correct hσ op rd rs rt a f hl ⟨hs, hu⟩ 4094
+  obtain ⟨he, σ', hr, hsim⟩ := r3_correct hσ op rd rs rt a f hl ⟨hs, hu, hn, hz⟩ 4094
   exact ⟨he, σ', hr, hsim, rfl⟩
 
 theorem instrOK_shi (op : Sh) (rd rt : Reg) (sa : BitVec 5) : InstrOK (.shi op rd rt sa) := by
@@ -89,6 +100,11 @@ theorem instrOK (i : Instr) : InstrOK i := by
   case shv op rd rt rs => exact instrOK_shv op rd rt rs
   case imm op rt rs i => exact instrOK_imm op rt rs i
   case lui rt i => exact instrOK_lui rt i
+  case mfhi rd => exact instrOK_mfhi rd
+  case mflo rd => exact instrOK_mflo rd
+  case mthi rs => exact instrOK_mthi rs
+  case mtlo rs => exact instrOK_mtlo rs
+  case muldiv op rs rt => exact instrOK_muldiv op rs rt
   case load op rt base off => exact instrOK_load op rt base off
   case store op rt base off => exact instrOK_store op rt base off
   all_goals
